@@ -13,12 +13,9 @@ func panicLocation() string {
 	frames := runtime.CallersFrames(pcs[:n])
 	for {
 		f, more := frames.Next()
-		if strings.Contains(f.Function, "teivah/majorana") {
-			file := f.File
-			if i := strings.Index(file, "/repo/"); i >= 0 {
-				file = file[i+6:]
-			}
-			return file + ":" + itoa(f.Line)
+		if i := strings.Index(f.Function, "teivah/majorana/"); i >= 0 {
+			// the function, not file:line: stable under the overlay and unrelated edits
+			return f.Function[i+len("teivah/majorana/"):]
 		}
 		if !more {
 			break
